@@ -40,6 +40,14 @@ func runC01(c *engine.Ctx, tier string) {
 		Sel:     engine.Sel{Field: "config/v2.ProposalStatus.PrevIndex"},
 		Require: link + " && @CFG.Status.Proposed.Index > 0 && err(@PREVP) == nil && @P.Status.PrevIndex == 0",
 		Why:     "PrevIndex is taken from the proposed cursor while it still points at the predecessor"})
+	// a proposal is marked COMMITTED only when the committed cursor has reached it: either this pass merged its
+	// values (cursor at the predecessor → moved to this proposal) or an earlier pass did; the cursor is the COMMIT
+	// cursor (it also moves over aborted proposals), not Configuration.Index (seed C01-r42: after a rejected Set
+	// the share of one target is marked committed without being written)
+	c.Guard(engine.Guard{ID: "C01.11", Pkg: pkgProposalCtl, Min: 1,
+		Sel:     engine.Sel{Call: stCfgUpdate},
+		Require: "@P.Status.Phases.Commit.State == config/v2.ProposalCommitPhase_COMMITTING && @CFG.Status.Committed.Index == @PREV && #wrote(" + fCommittedIdx + "=@OWN)",
+		Why:     "each target's share of the request is written under the commit cursor: written when the cursor is at the predecessor, skipped only when the cursor has already passed it — so no named target is marked committed without holding the change"})
 	c.Al = transactionAliases(c.P)
 	for _, g := range []struct{ id, rhs, prev string }{
 		{"C01.1f", "config/v2.TransactionStatus_VALIDATED", "config/v2.TransactionValidatePhase.State=config/v2.TransactionValidatePhase_VALIDATED"},
